@@ -45,7 +45,7 @@ func genC10(p *Plan, r *RNG) {
 	}
 	p.Flavor = "stunconn"
 	cuts, reads := genCuts(r)
-	p.Streams = []StreamCut{{Conn: "wr>rd", Cuts: cuts, Reads: reads}}
+	p.Streams = []StreamCut{{Conn: "wr>rd", Cuts: cuts, Reads: reads, Coalesce: r.Chance(1, 2)}}
 	if r.Chance(1, 4) {
 		// transient read errors between segments (an expired read deadline, EINTR): nothing
 		// that was read before may be lost, the frames still come out whole and in order
@@ -104,7 +104,7 @@ func genC10(p *Plan, r *RNG) {
 func genC10Bind(p *Plan, r *RNG) {
 	p.Flavor = "bindreply"
 	cuts, reads := genCuts(r)
-	p.Streams = []StreamCut{{Conn: "wr>rd", Cuts: cuts, Reads: reads}}
+	p.Streams = []StreamCut{{Conn: "wr>rd", Cuts: cuts, Reads: reads, Coalesce: r.Chance(1, 2)}}
 	s := "success"
 	if r.Chance(1, 4) {
 		s = "error"
